@@ -42,10 +42,12 @@ pub struct ScriptSink {
     pub flushes: usize,
     /// length of the buffer of every write call received
     pub log: Vec<usize>,
+    /// bytes accepted since the last successful flush()
+    pub unflushed: usize,
 }
 impl ScriptSink {
     pub fn new(script: Vec<Resp>, flush: FlushResp, prefill: &[u8]) -> ScriptSink {
-        ScriptSink { script, pos: 0, data: prefill.to_vec(), calls: 0, flush, flushes: 0, log: vec![] }
+        ScriptSink { script, pos: 0, data: prefill.to_vec(), calls: 0, flush, flushes: 0, log: vec![], unflushed: 0 }
     }
 }
 // only write and flush: write_all is std's default loop
@@ -63,6 +65,7 @@ impl Write for ScriptSink {
             Resp::Accept(n) => {
                 let m = n.min(buf.len());
                 self.data.extend_from_slice(&buf[..m]);
+                self.unflushed += m;
                 Ok(m)
             }
             Resp::Interrupted => Err(io::Error::new(ErrorKind::Interrupted, "scripted")),
@@ -74,6 +77,7 @@ impl Write for ScriptSink {
         match self.flush {
             FlushResp::Ok => {
                 self.flushes += 1;
+                self.unflushed = 0;
                 Ok(())
             }
             FlushResp::Fail(k) => Err(io::Error::new(k, "scripted flush")),
@@ -457,6 +461,8 @@ pub struct Scripted {
     pub flushes: usize,
     /// capacity std actually gave the BufWriter, if any
     pub real_cap: Option<usize>,
+    /// bytes that reached the sink after its last flush (a BufWriter dropped later writes, it does not flush the sink)
+    pub unflushed: usize,
 }
 pub fn run_scripted(c: &Case) -> Scripted {
     let mut sink = ScriptSink::new(c.script.clone(), c.flush, &c.prefill);
@@ -472,7 +478,7 @@ pub fn run_scripted(c: &Case) -> Scripted {
             })
         }
     };
-    Scripted { log, data: sink.data, calls: sink.calls, flushes: sink.flushes, real_cap }
+    Scripted { log, unflushed: sink.unflushed, data: sink.data, calls: sink.calls, flushes: sink.flushes, real_cap }
 }
 
 pub fn fnv(b: &[u8]) -> u32 {
@@ -772,6 +778,9 @@ impl Prop for P {
             }
             if s.flushes < 1 {
                 return "differs:not-flushed".to_string();
+            }
+            if s.unflushed > 0 {
+                return "differs:written-after-the-last-flush".to_string();
             }
             for cr in &s.log.calls {
                 match (cr.bw, cr.obs) {
